@@ -3,7 +3,7 @@ stations as removal set, a substituted clock.  geodepy.gnss needs pandas only at
 import os, sys, random, itertools, math, re, tempfile, shutil, types, datetime as _dt
 
 RULES = {
-    'C18.B.remove_stns': 'generated files: 1..7 station solutions (quick) / 1..12 (thorough), solution numbers 1..3, in 30 % of the files one site with a discontinuity (two solutions: one SITE/ID line, two EPOCHS lines, two sets of estimates), latitudes written -0 MM SS.S, with/without velocities, L and U matrices, random SPD covariances, EVERY subset of stations as removal set for <= 6 stations (sampled above), wall clock substituted at 00:00:00, 00:16:39, 02:46:39, 02:46:40, 12:00:00, 23:59:59 and year boundaries: output well formed (fixed-width header, every block closed on its own line, %ENDSNX last), estimates = remaining ones in order and renumbered, covariance = original minus removed rows/columns, header parameter count',
+    'C18.B.remove_stns': 'generated files: 1..7 station solutions (quick) / 1..12 (thorough), solution numbers 1..3, in 30 % of the files one site with a discontinuity (two solutions: one SITE/ID line, two EPOCHS lines, two sets of estimates), latitudes written -0 MM SS.S, with/without velocities, L and U matrices, random SPD covariances, EVERY subset of stations as removal set for <= 6 stations (sampled above) plus lists naming a station twice or naming a station that is not in the file, wall clock substituted at 00:00:00, 00:16:39, 02:46:39, 02:46:40, 12:00:00, 23:59:59 and year boundaries: output well formed (fixed-width header, every block closed on its own line, %ENDSNX last), estimates = remaining ones in order and renumbered, covariance = original minus removed rows/columns, header parameter count',
     'C18.B.remove_velocity': 'files with velocities: output keeps exactly the position estimates (renumbered) and their covariance sub-matrix, header count halved and fixed width, velocity flag removed, well formed',
     'C18.B.remove_matrixzeros': 'files whose covariance has all-zero matrix lines (uncorrelated stations) or element-wise random zeros (lines with every mix of zero and non-zero elements): those lines are dropped, every other line is unchanged and on its own line',
     'C18.B.readers': 'read_sinex_estimate, read_sinex_matrix, read_sinex_sites return exactly the values written',
@@ -273,6 +273,8 @@ def work(item):
             ucodes = [u['code'] for u in uniq] if 'uniq' in dir() else sorted(set(codes), key=codes.index)
             nu = len(ucodes)
             subsets = [c for k in range(0, nu) for c in itertools.combinations(ucodes, k)] if nu <= 6 else [tuple(rng.sample(ucodes, rng.randint(0, nu - 1))) for _ in range(40)]
+            if nu >= 3:          # removal lists as callers build them: a name listed twice (two exclusion lists joined), a name that is not in the file
+                subsets = list(subsets) + [(ucodes[0], ucodes[1], ucodes[0]), (ucodes[1], 'ZZZZ'), (ucodes[2], ucodes[2])]
             r = R['C18.B.remove_stns']
             for si, rem in enumerate(subsets):
                 clk = CLOCKS[(si + fi) % len(CLOCKS)]
